@@ -132,8 +132,12 @@ func (g *c20gen) structBody(depth int, others []string) []c20Field {
 	for i := 0; i < n; i++ {
 		var f c20Field
 		switch k := rapid.IntRange(0, 13).Draw(g.t, "fieldkind"); {
-		case k == 0 && len(others) > 0: // embedded
-			f.Embedded = pickS(g.t, others)
+		case k == 0 && (len(others) > 0 || rapid.Bool().Draw(g.t, "embext")): // embedded
+			// a local struct, a type of another package, a generic instantiation, an unexported type:
+			// the field's name is the last identifier of the type name
+			pool := append([]string{"time.Time", "sync.Mutex", "pkg.Box[int]", "pkg.Pair[int, string]", "Gen[int]", "Two[int, string]", "lower", "lower[int]", "pkg.lowerT"}, others...)
+			pool = append(pool, others...)
+			f.Embedded = pickS(g.t, pool)
 			if rapid.Bool().Draw(g.t, "embptr") {
 				f.Embedded = "*" + f.Embedded
 			}
@@ -335,6 +339,9 @@ func fieldName(f *ast.Field) string {
 		case *ast.Ident:
 			return x.Name
 		case *ast.IndexExpr:
+			t = x.X
+			continue
+		case *ast.IndexListExpr:
 			t = x.X
 			continue
 		}
